@@ -134,7 +134,7 @@ def check(ctx):
     ctx.rule("R1", "every signal handler (and the suspend key binding) swapped in by a threaded stage class is restored from its cleanup entry points; a failing Popen passes the cleanup", floor=10)
     ctx.rule("R2", "failures while building specs or starting a pipeline release every spec and stop/reap every stage that was already started", floor=5)
     ctx.rule("R3", "sibling closers agree on the resource slots of a spec", floor=2)
-    ctx.rule("R4", "_end always closes (finally); the alias thread always closes /dev/null; ProcProxy.wait closes every handle it opened", floor=4)
+    ctx.rule("R4", "the step of CommandPipeline.end() that runs the last stage to its end always closes it and marks the pipeline ended (finally) - found by role: end() or a helper on its way to the consumer of tee_stdout(); the alias thread always closes /dev/null; ProcProxy.wait closes every handle it opened", floor=4)
     ctx.rule("R5", "pipe ends are closed idempotently: the fd field is cleared under the lock before os.close; wrappers never own the fd; fds 0-2 and sys.std* are never closed", floor=7)
     ctx.rule("R7", "what a command edits in place is its own: the overlay mapping a stage receives is created for that stage (SubprocSpec.run() writes __ALIAS_NAME into it, handlers may add keys) - never an object that outlives the command", floor=1)
     ctx.rule("R8", "whoever replaced sys.stdout / sys.stderr puts the saved stream back unconditionally: on every path of the restore step (_TeeStd._replace_std, _RedirectStream.__exit__) the saved stream is stored into sys.<name>, unless the path is governed by 'nothing was installed' (`saved is None`) - a restore that first asks who is installed now is skipped whenever two redirections overlap and end out of order, and the session keeps the wrong stream", floor=2)
@@ -293,6 +293,7 @@ def check(ctx):
     end_chain = _ending_chain(pl)
     EXPAND_SKIP = _not_on_the_way(pl, "CommandPipeline")
     verdicts = {"_close_proc()": [], "ended = True": []}
+    from_root = {}
     for q_ in end_chain:
         en = flat(ctx, pl.func(q_), depth=3, skip=EXPAND_SKIP)
         ecfg = CFG(en, catchall=("BaseException",))
@@ -306,9 +307,19 @@ def check(ctx):
             if ok:
                 ok, path = ecfg.must_pass(ecfg.entry, lambda m_, nodes=nodes: m_ in nodes or m_ in already)
             verdicts[what].append((ok, q_, en, ecfg.fmt_path(path) if not ok and path else None))
+            if q_ == end_chain[0]:
+                # ... and seen from end() itself no *normal* way out goes round it (the function that always closes
+                # must not be one that end() calls only sometimes)
+                nok, npath = bool(nodes), None
+                if nok:
+                    nok, npath = ecfg.must_pass(ecfg.entry, lambda m_, nodes=nodes: m_ in nodes or m_ in already, exits=("exit",))
+                from_root[what] = (nok, en, ecfg.fmt_path(npath) if not nok and npath else None)
     for what, vs in verdicts.items():
         good = [v for v in vs if v[0]]
         ok, q_, en, path = good[-1] if good else vs[-1]
+        nok, ren, npath = from_root[what]
+        if ok and not nok:
+            ok, q_, en, path = False, end_chain[0], ren, npath
         ctx.ob("R4", f"{PL}:{q_}", f"every exit of the pipeline-ending step (exceptions included) passes {what}", ok, key=f"_end|{what}", where=loc(en), path=path)
     px = ctx.repo.module(PX)
     run = px.func("ProcProxyThread.run")
